@@ -1,4 +1,211 @@
 import Driver.Common
+import AnyioModel.Stream.Tls
 
-/-- placeholder driver: replies `unimplemented` to every request -/
-def main : IO Unit := Driver.serve () (fun s _ => (s, "unimplemented"))
+/-!
+Driver for the TLS endpoint model.  Two endpoint LTSs (client `a`, server `b`) are wired back
+to back by a scheduler that only ever applies events of `AnyioModel.Stream.Tls.step`; the
+request `session ...` plays one whole session (handshake, data both ways, receives, close or
+truncation) and prints the outcomes an API user sees.
+-/
+namespace Driver.Tls
+open AnyioModel.Stream.Tls
+
+def parseNats (w : String) : Option (List Nat) :=
+  if w = "-" then some [] else (w.splitOn ",").mapM String.toNat?
+
+def outStr : Out → String
+  | .susp => "blocked"
+  | .ret => "ret"
+  | .retData _ => "data"
+  | .eos => "eos"
+  | .broken => "broken"
+  | .sslError => "sslerror"
+  | .valueError => "valueerror"
+  | .env => "env"
+
+structure Sys where
+  a : State
+  b : State
+  fwdAB : Nat := 0
+  fwdBA : Nat := 0
+  cutAB : Option Nat := none
+  cutBA : Option Nat := none
+  frags : List Nat := []
+  lastA : Out := .env
+  lastB : Out := .env
+  bad : Bool := false   -- an event the scheduler expected to be enabled was not
+
+def applyA (y : Sys) (ev : Ev) : Sys :=
+  match step y.a ev with
+  | some (s', o) => { y with a := s', lastA := if o = .env then y.lastA else o }
+  | none => { y with bad := true }
+
+def applyB (y : Sys) (ev : Ev) : Sys :=
+  match step y.b ev with
+  | some (s', o) => { y with b := s', lastB := if o = .env then y.lastB else o }
+  | none => { y with bad := true }
+
+def nextFrag (y : Sys) : Nat × Sys :=
+  match y.frags with
+  | [] => (1000000, y)
+  | k :: ks => (k, { y with frags := ks })
+
+/-- move what `src` flushed since last time onto the wire towards `dst`, up to the cut -/
+def forwardAB (y : Sys) : Sys :=
+  if y.b.inEnded then y else
+  let fresh := y.a.wireOut.drop y.fwdAB
+  let allowed := match y.cutAB with
+    | none => fresh
+    | some k => fresh.take (k - y.fwdAB)
+  let y1 := if allowed = [] then y else
+    applyB { y with fwdAB := y.fwdAB + allowed.length } (.peerFlush allowed)
+  match y1.cutAB with
+  | some k => if y1.fwdAB ≥ k then applyB y1 .endTransport else y1
+  | none => y1
+
+def forwardBA (y : Sys) : Sys :=
+  if y.a.inEnded then y else
+  let fresh := y.b.wireOut.drop y.fwdBA
+  let allowed := match y.cutBA with
+    | none => fresh
+    | some k => fresh.take (k - y.fwdBA)
+  let y1 := if allowed = [] then y else
+    applyA { y with fwdBA := y.fwdBA + allowed.length } (.peerFlush allowed)
+  match y1.cutBA with
+  | some k => if y1.fwdBA ≥ k then applyA y1 .endTransport else y1
+  | none => y1
+
+def isBlocked (s : State) : Bool :=
+  match s.pc with
+  | .blocked _ => true
+  | .idle => false
+
+def settle : Nat → Sys → Sys
+  | 0, y => y
+  | fuel + 1, y =>
+    let y := forwardBA (forwardAB y)
+    if isBlocked y.b ∧ y.b.incoming ≠ [] then
+      let (k, y) := nextFrag y
+      settle fuel (applyB y (.deliver k))
+    else if isBlocked y.a ∧ y.a.incoming ≠ [] then
+      let (k, y) := nextFrag y
+      settle fuel (applyA y (.deliver k))
+    else if isBlocked y.b ∧ y.b.inEnded then settle fuel (applyB y .eofDeliver)
+    else if isBlocked y.a ∧ y.a.inEnded then settle fuel (applyA y .eofDeliver)
+    else y
+
+def FUEL : Nat := 100000
+
+def callA (y : Sys) (c : Call) : Sys := settle FUEL (applyA y (.call c))
+def callB (y : Sys) (c : Call) : Sys := settle FUEL (applyB y (.call c))
+
+/-- receive repeatedly at the server (`atB`) or client until `want` bytes were returned or the
+call ends otherwise; returns the system and the last outcome -/
+def readLoop (atB : Bool) : Nat → Sys → List Nat → List Nat → Nat → Sys × Out
+  | 0, y, _, _, _ => (y, .susp)
+  | fuel + 1, y, sizes, all, want =>
+    let got := if atB then y.b.delivered.length else y.a.delivered.length
+    if got ≥ want ∧ want > 0 ∨ (want = 0) then (y, .ret) else
+    let (n, rest) := match sizes with
+      | [] => (match all with | [] => 65536 | m :: _ => m, all.drop 1)
+      | m :: ms => (m, ms)
+    let y1 := if atB then callB y (.read n) else callA y (.read n)
+    let o := if atB then y1.lastB else y1.lastA
+    match o with
+    | .retData _ => readLoop atB fuel y1 rest all want
+    | _ => (y1, o)
+
+def writes : List (List Nat × List Nat) → Bool → Sys → Sys
+  | [], _, y => y
+  | (item, sizes) :: more, atA, y =>
+    let y1 := if atA then applyA y (.write item sizes) else applyB y (.write item sizes)
+    writes more atA (settle FUEL y1)
+
+/-- payload of message i in a direction: bytes numbered along the stream -/
+def mkItems (sizes : List Nat) (recs : List Nat) (salt : Nat) : List (List Nat × List Nat) :=
+  let rec go : List Nat → Nat → List Nat → List (List Nat × List Nat)
+    | [], _, _ => []
+    | k :: ks, off, rs =>
+      ((List.range k).map (fun i => (off + i + salt) % 251), rs.take 3) :: go ks (off + k) (rs.drop 1)
+  go sizes 0 recs
+
+structure Spec where
+  scC : Bool
+  scS : Bool
+  c2s : List Nat
+  s2c : List Nat
+  recs : List Nat
+  frags : List Nat
+  recvC : List Nat
+  recvS : List Nat
+  close : Bool
+
+def play (p : Spec) (cutAB cutBA : Option Nat) : Sys × String :=
+  let y0 : Sys := { a := init p.scC false, b := init p.scS true, cutAB, cutBA, frags := p.frags }
+  -- handshake: both ends call do_handshake
+  let y1 := applyB (applyA y0 (.call .handshake)) (.call .handshake)
+  let y2 := settle FUEL y1
+  let hsC := y2.lastA
+  let hsS := y2.lastB
+  if hsC ≠ .ret ∨ hsS ≠ .ret then
+    (y2, s!"hsC={outStr hsC} hsS={outStr hsS} c2s=0/1 endS=- s2c=0/1 endC=- closeC=-")
+  else
+    let y3 := writes (mkItems p.c2s p.recs 0) true y2
+    let y4 := writes (mkItems p.s2c (p.recs.drop 2) 100) false y3
+    let totC2S := p.c2s.foldl (· + ·) 0
+    let totS2C := p.s2c.foldl (· + ·) 0
+    let (y5, rS) := readLoop true FUEL { y4 with lastB := .env } p.recvS p.recvS totC2S
+    let (y6, rC) := readLoop false FUEL { y5 with lastA := .env } p.recvC p.recvC totS2C
+    let okS := y6.b.delivered == y6.a.sentPlain.take y6.b.delivered.length
+    let okC := y6.a.delivered == y6.b.sentPlain.take y6.a.delivered.length
+    -- end of the session
+    let dataDone := rS = .ret ∧ rC = .ret
+    let (y9, endS, endC, closeC) :=
+      if ¬ dataDone then (y6, rS, rC, Out.env)
+      else if p.close then
+        if p.scC then
+          -- client: aclose() = unwrap (blocks until the server's close_notify) + transport close
+          let y7 := callA { y6 with lastA := .env } .unwrap
+          let y8 := callB { y7 with lastB := .env } (.read 100)
+          let eS := y8.lastB
+          let y8 := if p.scS then callB y8 .unwrap else applyA (settle FUEL y8) .endTransport
+          let y9 := settle FUEL y8
+          (y9, eS, Out.env, y9.lastA)
+        else
+          -- client closes the transport without a closing handshake
+          let y7 := applyB (settle FUEL y6) .endTransport
+          let y8 := callB { y7 with lastB := .env } (.read 100)
+          (y8, y8.lastB, Out.env, Out.ret)
+      else
+        -- truncation after the data (cut = everything but no close): victim reads once more
+        let y7 := callB { y6 with lastB := .env } (.read 100)
+        let y8 := callA { y7 with lastA := .env } (.read 100)
+        (y8, y8.lastB, y8.lastA, Out.env)
+    let sh (o : Out) := if o = .env then "-" else outStr o
+    (y9, s!"hsC=ret hsS=ret c2s={y9.b.delivered.length}/{Driver.bool01 okS} endS={sh endS} s2c={y9.a.delivered.length}/{Driver.bool01 okC} endC={sh endC} closeC={sh closeC}"
+          ++ (if y9.bad then " SCHEDULER-DISABLED" else "")
+          ++ (if y9.a.readsWithPending + y9.b.readsWithPending ≠ 0 then " UNFLUSHED-READ" else ""))
+
+def session (p : Spec) (cutDir : String) (num den : Nat) : String :=
+  if cutDir = "n" then (play p none none).2
+  else
+    -- length of the direction's byte stream in the uncut session, then the proportional cut
+    let (y, _) := play p none none
+    let total := if cutDir = "c2s" then y.a.wireOut.length else y.b.wireOut.length
+    let k := if den = 0 then 0 else min (total - 1) (total * num / den)
+    if cutDir = "c2s" then (play p (some k) none).2 else (play p none (some k)).2
+
+def handle (s : Unit) : List String → Unit × String
+  | ["session", scC, scS, c2s, s2c, recs, frags, recvC, recvS, cutDir, num, den, close] =>
+    match Driver.parseBool scC, Driver.parseBool scS, parseNats c2s, parseNats s2c, parseNats recs,
+          parseNats frags, parseNats recvC, parseNats recvS, num.toNat?, den.toNat?,
+          Driver.parseBool close with
+    | some scC, some scS, some c2s, some s2c, some recs, some frags, some recvC, some recvS,
+      some num, some den, some close =>
+      (s, session { scC, scS, c2s, s2c, recs, frags, recvC, recvS, close } cutDir num den)
+    | _, _, _, _, _, _, _, _, _, _, _ => (s, "bad-op")
+  | _ => (s, "bad-op")
+
+end Driver.Tls
+
+def main : IO Unit := Driver.serve () Driver.Tls.handle
